@@ -14,13 +14,93 @@ TECH_V = "Verus contracts on verbatim-extracted functions"
 TECH_K = "Kani/CBMC contract harnesses on verbatim-extracted functions"
 
 # property -> (level, text, note, technique, design_ref)
+TECH_M = "Verus contracts + Kani/CBMC contract harnesses on verbatim-extracted functions"
+GLUE = " The whole-system statement additionally rests on unverified glue listed in the evidence (`not_covered`)."
+
 CLAIMS = {
+    "C01": ("proof",
+            "Decided at the gates every insertion must pass: time-window/shift gate (accept => step simulation of the inserted leg feasible; complete over all f64 in [0,1e9] in the thorough tier, "
+            "integer-valued domain in the quick tier), capacity gate has_demand_violation for Single- and MultiDimLoad (sound and complete w.r.t. the fit conditions; complete proofs, loops are the constant 8), "
+            "load algebra == element-wise spec, and the combinator consulting every constraint (bounded <= 3)." + GLUE,
+            "Trusted: Kani/CBMC; stub environments of the extracted gates; meaning of cached latest_arrival / load vectors (U03a bounded); every search operator, goal assembly, "
+            "skills/groups/compatibility/tour-order/reachable/break/reload/recharge/locking gates are NOT under contract: a mutation there is not detected.",
+            TECH_K, "§3 C01"),
+    "C02": ("proof",
+            "Primitives that move a job between buckets: JobRemovalTracker::try_remove_job (exact whole-state postcondition: job leaves one tour entirely and is queued once, locked/other routes/unassigned/ignored untouched, "
+            "false => nothing changes) verified against the verified contracts of every Tour mutator (representation invariant jobs == jobs of activities); Verus, unbounded." + GLUE,
+            "Trusted: Verus/Z3; Job identity model (Arc pointer identity), Vec::retain contract; insertion application, finalisation, route removal, decomposition merge, solution_writer are NOT under contract.",
+            TECH_V, "§3 C02"),
+    "C03": ("model_checking",
+            "update_route_schedule (schedules, totals, latest-arrival and waiting states) equals an independent forward/backward replay from the bare tour, bit-equal, from any cache content - "
+            "bounded (<= 2 job activities, integer-valued times). Writer/rounding/place-tag clauses are not decided." + GLUE,
+            "Bounded Kani harnesses (stated bounds); stub environment; solution_writer::create_tour, get_total_cost, Statistic sums not under contract.",
+            TECH_K + " (bounded)", "§3 C03"),
+    "C04": ("proof",
+            "Claimed for the primitives search steps are composed of only: the invariant (tour well-formed, job set == jobs of activities, locked jobs untouched, a removed job re-queued exactly once) is inductive "
+            "for try_remove_job and every Tour mutator (Verus, unbounded, all histories). The ~40 operator files themselves are glue: a mutation that makes an operator bypass these primitives is not detected.",
+            "Trusted: Verus/Z3; see C02. Operators (ruin/recreate/local/decompose/redistribute/infeasible/lkh search), insertion application and deep copies are NOT under contract.",
+            TECH_V, "§3 C04"),
+    "C05": ("model_checking",
+            "Stale-flag protocol: every mutable RouteContext accessor marks the context stale (Verus, unbounded); accept_route_state clears and recomputes exactly the stale routes, runs every hook once in order; "
+            "accept_solution_state restarts until a full pass is change-free and leaves all routes fresh (bounded); schedule/statistics recomputation is independent of the previous cache content (bounded <= 2 activities)." + GLUE,
+            "Bounded Kani harnesses + Verus accessors; the individual features' accept_* hooks (capacity states, groups, compatibility, tour order, reloads, limits) are NOT under contract.",
+            TECH_M, "§3 C05"),
+    "C06": ("proof",
+            "Soundness: time-window gate and capacity gate accept only legs whose step simulation is feasible (complete Kani proofs, see C01). Completeness: on the exact (integer-valued) domain a feasible leg in a consistent tour "
+            "is accepted mid-tour/closed-tour, and at the open end under the stricter premise the code implements; the open-end converse as the property states it is KNOWN FINDING F5. "
+            "Capacity gate: everything fits => accepted (complete)." + GLUE,
+            "Trusted: as C01; evaluator plumbing (analyze_insertion_in_route_leg, eval_multi, LegSelection) is NOT under contract; machine floats: converse demanded on integer-valued inputs only.",
+            TECH_K, "§3 C06"),
+    "C07": ("model_checking",
+            "Iterative::run executes exactly min(limit, k) generations for MaxGeneration(limit) and a quota that fires at an arbitrary poll index k, returns Ok with the ranked prefix (bounded limit <= 3, k <= 4); "
+            "MaxGeneration/MaxTime fire iff the limit is reached (complete), estimates in [0,1] (bounded domains), composite = any/max (<= 3)." + GLUE,
+            "Bounded Kani harness in a stub rosomaxa environment; quota polls inside insertion heuristic / decompose / swap-star and 'returned solution satisfies C01-C03' are inherited from those kernels, not re-proved.",
+            TECH_K + " (bounded + complete guards)", "§3 C07"),
+    "C08": ("model_checking",
+            "Greedy: add step contract from an arbitrary state (complete, hence all histories), add_all batches <= 3 (found defect F1, fixed); Elitism: one add/add_all step from an arbitrary sorted bounded state keeps the best, "
+            "stays sorted/bounded/duplicate-free, invents nothing, reports improvement correctly; selection only yields members (bounded: population <= 5, constant lengths enumerated).",
+            "Kani on the real rosomaxa crate in a scratch overlay (no substitutions); Rosomaxa population (GSOM) only through Elitism being its elite/node storage; objective assumed a total preorder.",
+            TECH_K + " on a whole-crate overlay", "§3 C08"),
+    "C09": ("model_checking",
+            "InsertionCost: cmp == lexicographic total_cmp over zero-padded vectors, antisymmetric/reflexive, eq/partial_cmp/operators agree, add/sub element-wise with missing = 0, inverse on the exact domain "
+            "(vector lengths <= 3 enumerated, every finite f64 component); transitivity length <= 2. Goal::total_order not yet under contract.",
+            "Bounded by vector length (constants enumerated); real tinyvec compiled in; goal layers (models/goal.rs) and dominance_order not under contract.",
+            TECH_K + " (bounded lengths)", "§3 C09"),
+    "C10": ("model_checking",
+            "The shared time-window rule check_time_windows == documented rule E1103 for <= 3 (thorough: 4) windows (found defect F2, fixed); TimeWindow::intersects == inclusive overlap. "
+            "Only this helper is under contract; the other rule functions and the reader are not.",
+            "Bounded Kani harnesses; RFC3339 parsing, ids, JSON reader, 37 other rule functions are NOT under contract (string code).",
+            TECH_K + " (bounded)", "§3 C10"),
+    "C14": ("proof",
+            "Tour: representation invariant (depot ends in place, interior activities carry jobs, job set == jobs of activities) preserved by every mutator with whole-view postconditions, getters equal their spec - "
+            "Verus, unbounded, hence all operation histories.",
+            "Trusted: Verus/Z3; Job identity model; Vec::retain contract; legs()/index()/deep_copy and the vehicle registry are NOT under contract (iterator adapters).",
+            TECH_V, "§3 C14"),
+    "C15": ("proof",
+            "First sentence: the reducer (choose_best_result, BestResultSelector::select_insertion, select_cost) returns one of its arguments with the minimal cost (Verus); lemma L15: every fold/reduce tree over any "
+            "partition and order yields a leaf with the minimal cost. Tie-breaks are left open on purpose.",
+            "Trusted: rayon applies the reducer over some partition tree, each item once; the fold step's pruning (eval_job_insertion_in_route) is undecided; thread interleavings not explored.",
+            TECH_V + " + lemma", "§3 C15"),
+    "C16": ("proof",
+            "Time-agnostic and simple matrix providers return exactly the row-major entry of the profile's matrix, durations multiplied (same f64 operation) by profile.scale, distances unscaled, fallback exactly when absent - "
+            "Verus, any matrix size and profile count.",
+            "Floats uninterpreted (operation identity, not numerics); time-aware interpolation, constructors' rejections, fleet_reader, haversine are NOT under contract.",
+            TECH_V, "§3 C16"),
+    "C18": ("proof",
+            "SlotMachine: one-step contract from any state in the invariant box (shape +1/2 and positive, rate non-decreasing positive finite, variance finite >= 0, mean within hull of old mean and reward up to one ulp, "
+            "sampler preconditions met) - complete in the thorough tier (n < 2^40), n < 2^12 in the quick tier; termination estimates in [0,1] (see C07).",
+            "Trusted: powi(2) = x*x; sampler contract; rewards <= 1e4; history link by integer lemma (planned L18); reward computation, weighted/argmax selection, MinVariation not under contract.",
+            TECH_K, "§3 C18"),
     "C19": ("proof",
             "Compaction clause only: the coordinate remap used by GSOM compaction (get_offset) is proved strictly monotone on the surviving rows/columns "
             "(hence injective: compaction cannot merge two nodes) and contracting towards the origin (never grows the map), for every network shape containing the origin "
             "and both decimation factors; complete loop-free Kani proof over all i32 inputs with |v| <= 2^20. Growth/training/weight clauses are not decided.",
             "Trusted: Kani/CBMC; Network::compact passes (3,4); network shape contains the origin; contract_graph/Network::remap glue and all training code unverified.",
             TECH_K + " (loop-free, complete)", "§3 C19"),
+    "C20": ("model_checking",
+            "Distance objective: estimate_leg's quoted delta equals total_distance(after) - total_distance(before) exactly, for empty tour, first/last/open-end leg (bounded <= 1 existing job activity, integer-valued matrix).",
+            "Bounded Kani harnesses; unassigned/tour-count/value objectives and CostObjective not under contract yet.",
+            TECH_K + " (bounded)", "§3 C20"),
 }
 
 NOT_APPLICABLE = {
